@@ -24,7 +24,7 @@ LEVEL = {
  'C15': ("proof", "The handshake closure returns nil exactly when VerifyUserAuth accepts the token extracted from the request, and the HTTP middleware calls the wrapped handler exactly once in that case and otherwise answers 401 and calls nothing (both proved on the real closures, token validation itself assumed); a structural check of cmd.main's SSA confirms the relay server and /smoke-test are mounted behind them.", "§10 C15"),
  'C16': ("proof", "vikja: the action store is proved against the (entity, name) -> action view; handleSetEntityAction behaviours are taken from the property (older than stored: refused, unchanged, no relay; otherwise replaced and relayed once; missing fields / unknown entity refused). odal: at most one instance per entity by construction of the view, fresh monotone instance ids, owner only. Joiner snapshots enumerate exactly the stored sets; entity deletion and departure cascade.", "§10 C16"),
  'C17': ("proof", "Every relay in every handler behaviour is a conditional event guarded by exactly its own flag; the obligations are proved with the flag set an arbitrary map, i.e. for all 1024 subsets and any unknown names at once.", "§10 C17"),
- 'C18': ("proof", "HandleSignedLatency starts a measurement only for a joined participant, 3..50 rounds, non-empty wallet; OnPing behaviours from the property (unknown or already answered id: refused, nothing changes; otherwise exactly one further ping or exactly one response); the response's Signature is hex(Sign(Keccak(Data), key)) of exactly the Data field; Data is the marshaled LatencyData naming client, session UUID, wallet, exactly the issued ping ids; statistics: min <= max, every round within [min,max], last = final round, p95 within.", "§10 C18"),
+ 'C18': ("proof", "HandleSignedLatency starts a measurement only for a joined participant, 3..50 rounds, non-empty wallet; OnPing behaviours from the property (unknown or already answered id: refused, nothing changes; otherwise exactly one further ping or exactly one response); the response's Signature is hex(Sign(Keccak(Data), key)) of exactly the Data field; Data is the marshaled LatencyData naming client, session UUID, wallet, exactly the issued ping ids; statistics: min <= max, every round within [min,max], last = final round, p95 within. That the clock-derived ping ids of one measurement are distinct is an assumption (A-pingid) with a bounded stand-in, labelled bounded: complete measurements of 3, 10 and 50 rounds against an instantly answering client on the real handlers.", "§10 C18"),
  'C19': ("proof", "HandleReceipt behaviours (empty field, accepted = exactly one enqueue of the unchanged payload and one response, queue full) are proved; the non-blocking select is modelled as a ready/not-ready choice; VerifyPayload returns nil exactly for well-formed payloads; the receipts worker forwards each dequeued payload exactly once iff it is well formed, unchanged; ForwardToNCS posts it once.", "§10 C19"),
  'C20': ("proof", "Only the retention and sharing clauses are claimed: dagaz.Module.Init creates the spatial partition once per session and never replaces an existing one, all participants share it through the session's module state, every quad sample is inserted into that partition and each query answers once from it. Index completeness is not proved: a bounded stand-in (labelled bounded in the evidence) replays about 450 000 insert sequences over 144 quads on the real grid and checks that every stored plane is registered in every cell its footprint overlaps; the geometric primitives are not applicable to this technique (see not_covered).", "§10 C20"),
 }
